@@ -1203,6 +1203,8 @@ def chain_judge(c, o, props):
                 bad.append("%s: revocation ids do not start with its parent's" % n)
             if ho["rev_dup"]:
                 bad.append("%s: two different signing operations produced the same revocation id" % n)
+            if not ho.get("rev_independent", True):
+                bad.append("%s: appending to one returned revocation id changed another identifier (of the returned set or of the next call)" % n)
         if "C09" in props and mt["pf"]["t"] == "fin":
             if not ho.get("sealed_frozen"):
                 bad.append("%s is sealed but Append or Seal on it (or on its reloaded copy) did not fail" % n)
